@@ -50,11 +50,12 @@ Proof. exact SemicolonProof.semicolon_kept_where_needed. Qed.
 Print Assumptions C02_statements_never_merged_by_a_dropped_semicolon.
 
 (* L0 - the whole-formatter model on a fragment of Lua 5.1 (Fmt0.v), tied to the binary byte for byte on every run:
-   for every program of the fragment and every whitespace configuration, what is printed has exactly the erased token
+   for every program of the fragment and every configuration (whitespace, quotes, call_parentheses,
+   space_after_function_names), what is printed has exactly the erased token
    sequence of the program itself, and every expression keeps its operator grouping *)
 From SV Require Fmt0 Fmt0Proof.
 Theorem C02_L0_output_has_the_erasure_of_the_program : forall dl c p,
-  Census.erase dl (Fmt0.pprog c (Fmt0.nprog p)) = Census.erase dl (Fmt0.pprog c p).
+  Census.erase dl (Fmt0.pprog c (Fmt0.norm0 c p)) = Census.erase dl (Fmt0.pprog c p).
 Proof. exact Fmt0Proof.format0_keeps_erasure. Qed.
 Print Assumptions C02_L0_output_has_the_erasure_of_the_program.
 Theorem C02_L0_expressions_keep_their_grouping : forall e c, Expr.Sm (Fmt0.shape (Fmt0.nexp c e)) = Expr.Sm (Fmt0.shape e).
